@@ -1,12 +1,18 @@
 /* env_conf.h — verification environment of the config-parser units (C09, C11; owner: conf).
  *
  * Include AFTER vprelude.h and BEFORE "src/conf.c" / "src/file.c".  Everything here is about
- * code outside /repo (libc, the OS), about ghost state, or is one of the two STATED RE-BINDINGS
- * of conf.c macros (section 6).  Stubs follow the man pages and return every outcome the man
- * page allows; deviations are marked ASSUMES.
+ * code outside /repo (libc, the OS), about ghost state, or is one of the STATED RE-BINDINGS of
+ * conf.c macros / message calls (sections 5b and 6).  Stubs follow the man pages and return
+ * every outcome the man page allows; deviations are marked ASSUMES.
  *
  * Units that include this header compile with  -DVERIF_OWN_STRCMP -DVERIF_OWN_STRCHR
- * (env.h then leaves the comparison / search families to this file).
+ * (env.h then leaves the comparison / search families to this file); optionally
+ * -DVERIF_OWN_STRLEN with -DVERIF_STRLEN_REGISTRY (deterministic strlen, section 1c) or
+ * -DVERIF_EXACT_STR (byte-loop string functions for bounded units, section 1d).
+ *
+ * Switches: VERIF_CONF_REBIND (6a, 6b), VERIF_CONF_PUSH_MODELS (6c), VERIF_MAX_NEST (deepest file
+ * nesting the fopen stub allows; default 255 = the domain of C09), VERIF_FGETS_ALWAYS_OK / _FAIL,
+ * VERIF_FTELL_REGULAR_SMALL, VERIF_STREAM_CHECKS_UNGUARDED (behaviour splits of individual units).
  */
 #ifndef VERIF_ENV_CONF_H
 #define VERIF_ENV_CONF_H
@@ -153,54 +159,30 @@ size_t vg_m1, vg_m2, vg_m3;
 #define vg_lk_hit         vg_lkp.hit
 
 /* ======================================================================================
- * 1b. exact strlen (units that define VERIF_OWN_STRLEN and VERIF_STRLEN_FORALL; SMT back end)
- *    env.h's strlen returns SOME NUL position, which is too weak where a destination-size
- *    argument depends on two strlen calls agreeing (spifconf_find_file's PATH_MAX buffers).
- *    This variant returns THE first NUL: minimality is a quantified assumption, so units using
- *    it run on z3 (the driver rejects a SAT run that ignored a quantifier).
- *    ASSUMES (as env.h): the argument holds a NUL at or after the pointer.
- * ====================================================================================== */
-#if defined(VERIF_OWN_STRLEN) && defined(VERIF_STRLEN_FORALL)
-size_t strlen(const char *s)
-{
-    __CPROVER_assert(s != NULL, "strlen: argument not NULL");
-    __CPROVER_assert(__CPROVER_r_ok(s, 1), "strlen: argument readable");
-    size_t r = nondet_size_t();
-    __CPROVER_assume(r < VREMAIN(s));
-    __CPROVER_assume(s[r] == 0);
-    __CPROVER_assume(__CPROVER_forall { size_t vq_i; (vq_i < r) ==> s[vq_i] != 0 });
-    return r;
-}
-size_t strnlen(const char *s, size_t maxlen)
-{
-    size_t r = strlen(s);
-    return r < maxlen ? r : maxlen;
-}
-#endif
-
-/* ======================================================================================
  * 1c. deterministic strlen (units that define VERIF_OWN_STRLEN and VERIF_STRLEN_REGISTRY; SAT)
  *    Still "SOME NUL position of the argument" (env.h's over-approximation, same ASSUMES), but the
  *    choice is made deterministic so that two strlen calls on an unchanged buffer agree and the
  *    destination-size arithmetic of strcpy/strcat chains can be followed without quantifiers:
- *      1. the empty string has length 0;
+ *      1. the empty string has length 0 (the copy stubs keep the FIRST byte of a string faithful, so a
+ *         non-empty result never looks empty);
  *      2. a length REGISTERED for exactly this pointer by the stub/model that produced the string
  *         (strcpy, strcat, snprintf, readdir, the temp_file / safe_strncpy models) is returned as
  *         long as the byte there is still NUL;
  *      3. a "tight" string (the object ends with the terminator) has the object's length;
  *      4. otherwise any NUL position.
- *    The registry has 8 slots keyed by object number; a collision only loses precision.
+ *    The registry has one slot per object number (256 with the default 8 object bits); a collision (more
+ *    object bits) only loses precision.
  * ====================================================================================== */
 #if defined(VERIF_OWN_STRLEN) && defined(VERIF_STRLEN_REGISTRY)
-struct { const char *p; size_t n; } vg_sreg[8];
-#define V_SREG_SET(ptr, len) do { unsigned vsi = (unsigned) (__CPROVER_POINTER_OBJECT(ptr) % 8); \
+struct { const char *p; size_t n; } vg_sreg[256];
+#define V_SREG_SET(ptr, len) do { unsigned vsi = (unsigned) (__CPROVER_POINTER_OBJECT(ptr) % 256); \
                                   vg_sreg[vsi].p = (const char *) (ptr); vg_sreg[vsi].n = (len); } while (0)
 size_t strlen(const char *s)
 {
     __CPROVER_assert(s != NULL, "strlen: argument not NULL");
     __CPROVER_assert(__CPROVER_r_ok(s, 1), "strlen: argument readable");
     if (s[0] == 0) return 0;
-    unsigned i = (unsigned) (__CPROVER_POINTER_OBJECT(s) % 8);
+    unsigned i = (unsigned) (__CPROVER_POINTER_OBJECT(s) % 256);
     if (vg_sreg[i].p == s && vg_sreg[i].n < VREMAIN(s) && s[vg_sreg[i].n] == 0) return vg_sreg[i].n;
     size_t last = VREMAIN(s) - 1;
     if (s[last] == 0) return last;
@@ -216,6 +198,21 @@ size_t strnlen(const char *s, size_t maxlen)
 }
 #else
 #define V_SREG_SET(ptr, len) do { } while (0)
+#endif
+
+/* ======================================================================================
+ * 1d. exact byte-loop string functions (bounded units that define VERIF_OWN_STRLEN and
+ *     VERIF_EXACT_STR; loops are unwound by the unit's --unwind): man-page semantics, every copy
+ *     carries its destination-size obligation.
+ * ====================================================================================== */
+#if defined(VERIF_OWN_STRLEN) && defined(VERIF_EXACT_STR)
+size_t strlen(const char *s)
+{
+    size_t n = 0;
+    __CPROVER_assert(s != NULL, "strlen: argument not NULL");
+    while (s[n]) n++;
+    return n;
+}
 #endif
 
 /* ======================================================================================
@@ -310,6 +307,12 @@ char *strchr(const char *s, int c)
 {
     __CPROVER_assert(s != NULL, "strchr: argument not NULL");
     __CPROVER_assert(__CPROVER_r_ok(s, 1), "strchr: argument readable");
+#ifdef VERIF_EXACT_STR
+    for (size_t i = 0;; i++) {
+        if (s[i] == (char) c) return (char *) s + i;
+        if (!s[i]) return (char *) 0;
+    }
+#endif
     if (s == vg_fg_buf && vg_fg_ok && c == '\n') {
         return vg_fg_nl ? (char *) s + (vg_fg_len - 1) : (char *) 0;
     }
@@ -570,14 +573,36 @@ int v_msg(int unused, ...) { return 0; }   /* variadic, empty body: evaluates it
  *    is a C string).  See the unit files for how exact lengths are obtained where the
  *    destination-size argument needs them.
  * ====================================================================================== */
+#ifdef VERIF_EXACT_STR
+char *strcpy(char *d, const char *s)
+{
+    size_t i = 0;
+    __CPROVER_assert(s != NULL && d != NULL, "strcpy: arguments not NULL");
+    for (;; i++) {
+        __CPROVER_assert(i < VREMAIN(d), "strcpy: destination holds strlen(src)+1 bytes");
+        d[i] = s[i];
+        if (!s[i]) break;
+    }
+    return d;
+}
+char *strcat(char *d, const char *s)
+{
+    __CPROVER_assert(s != NULL && d != NULL, "strcat: arguments not NULL");
+    strcpy(d + strlen(d), s);
+    return d;
+}
+#else
 char *strcpy(char *d, const char *s)
 {
     __CPROVER_assert(s != NULL && d != NULL, "strcpy: arguments not NULL");
     size_t n = strlen(s);
     __CPROVER_assert(__CPROVER_w_ok(d, n + 1), "strcpy: destination holds strlen(src)+1 bytes");
+    __CPROVER_assume(__CPROVER_w_ok(d, n + 1));                      /* (a failed obligation above ends the path) */
     /* over-approximation: the whole destination object becomes arbitrary, then the terminator */
+    char first = s[0];
     __CPROVER_havoc_object(d);
     d[n] = 0;
+    d[0] = first;                                /* first byte faithful (NUL exactly when the source is empty) */
     V_SREG_SET(d, n);
     return d;
 }
@@ -587,11 +612,15 @@ char *strcat(char *d, const char *s)
     size_t dl = strlen(d);
     size_t n = strlen(s);
     __CPROVER_assert(__CPROVER_w_ok(d + dl, n + 1), "strcat: destination holds strlen(dest)+strlen(src)+1 bytes");
+    __CPROVER_assume(__CPROVER_w_ok(d + dl, n + 1));                 /* (a failed obligation above ends the path) */
+    char first = dl > 0 ? d[0] : s[0];
     __CPROVER_havoc_object(d);
     d[dl + n] = 0;
+    d[0] = first;                                /* first byte faithful */
     V_SREG_SET(d, dl + n);
     return d;
 }
+#endif /* VERIF_EXACT_STR */
 char *strncpy(char *d, const char *s, size_t n)
 {
     __CPROVER_assert(n == 0 || (s != NULL && d != NULL), "strncpy: arguments not NULL");
@@ -643,14 +672,47 @@ int v_snprintf(char *d, size_t size, int unused)
  * 5c. loop contracts of conf.c (text of the annotation table annot/conf.c.conf.ann)
  * ====================================================================================== */
 /* builtin_dirscan, loop 1: for (i = 0; (dp = readdir(dirp));)   — buff holds a C string of exactly
- * CONFIG_BUFF - n characters (n = room left, the terminator included): either it is still empty or the
- * registry of the deterministic strlen knows its length. */
-#define VCA_DIRSCAN_SLOT (__CPROVER_POINTER_OBJECT(buff) % 8)
+ * CONFIG_BUFF - n characters (n = room left, the terminator included): either it is still empty, or it is not
+ * and the registry of the deterministic strlen knows its length. */
+#define VCA_DIRSCAN_SLOT (__CPROVER_POINTER_OBJECT(buff) % 256)
 #define VCA_DIRSCAN_LOOP \
     __CPROVER_assigns(dp, filestat, n, __CPROVER_object_whole(buff), __CPROVER_object_whole(dirp), vg_ct, vg_sreg) \
     __CPROVER_loop_invariant(n >= 2 && n <= CONFIG_BUFF && __CPROVER_rw_ok(buff, CONFIG_BUFF) && buff[CONFIG_BUFF - n] == 0) \
-    __CPROVER_loop_invariant(n == CONFIG_BUFF || (vg_sreg[VCA_DIRSCAN_SLOT].p == (const char *) buff && vg_sreg[VCA_DIRSCAN_SLOT].n == CONFIG_BUFF - n)) \
-    __CPROVER_loop_invariant(__CPROVER_rw_ok(dirp, sizeof(struct v_dir))) \
+    __CPROVER_loop_invariant((n == CONFIG_BUFF && buff[0] == 0) || \
+                             (buff[0] != 0 && vg_sreg[VCA_DIRSCAN_SLOT].p == (const char *) buff && vg_sreg[VCA_DIRSCAN_SLOT].n == CONFIG_BUFF - n)) \
+    __CPROVER_loop_invariant(__CPROVER_rw_ok(dirp, sizeof(struct v_dir)) && vg_open_dirs == __CPROVER_loop_entry(vg_open_dirs)) \
+    __CPROVER_decreases(vg_dir_budget)
+
+/* ======================================================================================
+ * 5b. message functions without their format literals
+ *    env.h's stubs of libast_dprintf / libast_print_error / libast_print_warning /
+ *    libast_fatal_error / fprintf ignore every argument.  Every string literal is an addressable
+ *    object, conf.c has well over a hundred format strings in its D_CONF()/error calls, and
+ *    DFCC's bookkeeping arrays are indexed by object number: with more than 256 objects
+ *    (--object-bits 8) the SAT back end runs out of memory on them.  The calls are therefore
+ *    routed through macros that DROP THE FORMAT LITERAL and still evaluate every other argument
+ *    (so reads such as file_peek_path() stay in the verified text).
+ * ====================================================================================== */
+#define libast_dprintf(fmt, ...)        v_msg(0, ##__VA_ARGS__)
+#define libast_print_error(fmt, ...)    ((void) v_msg(0, ##__VA_ARGS__))
+#define libast_print_warning(fmt, ...)  ((void) v_msg(0, ##__VA_ARGS__))
+#define libast_fatal_error(fmt, ...)    do { v_msg(0, ##__VA_ARGS__); __CPROVER_assume(0); } while (0)
+#undef  fprintf
+#define fprintf(f, fmt, ...)            v_msg(0, ##__VA_ARGS__)
+
+/* ======================================================================================
+ * 5c. loop contracts of conf.c (text of the annotation table annot/conf.c.conf.ann)
+ * ====================================================================================== */
+/* builtin_dirscan, loop 1: for (i = 0; (dp = readdir(dirp));)   — buff holds a C string of exactly
+ * CONFIG_BUFF - n characters (n = room left, the terminator included): either it is still empty, or it is not
+ * and the registry of the deterministic strlen knows its length. */
+#define VCA_DIRSCAN_SLOT (__CPROVER_POINTER_OBJECT(buff) % 256)
+#define VCA_DIRSCAN_LOOP \
+    __CPROVER_assigns(dp, filestat, n, __CPROVER_object_whole(buff), __CPROVER_object_whole(dirp), vg_ct, vg_sreg) \
+    __CPROVER_loop_invariant(n >= 2 && n <= CONFIG_BUFF && __CPROVER_rw_ok(buff, CONFIG_BUFF) && buff[CONFIG_BUFF - n] == 0) \
+    __CPROVER_loop_invariant((n == CONFIG_BUFF && buff[0] == 0) || \
+                             (buff[0] != 0 && vg_sreg[VCA_DIRSCAN_SLOT].p == (const char *) buff && vg_sreg[VCA_DIRSCAN_SLOT].n == CONFIG_BUFF - n)) \
+    __CPROVER_loop_invariant(__CPROVER_rw_ok(dirp, sizeof(struct v_dir)) && vg_open_dirs == __CPROVER_loop_entry(vg_open_dirs)) \
     __CPROVER_decreases(vg_dir_budget)
 
 /* spifconf_find_file, loop 1: for (path = pathlist; path && *path != '\0'; path = p) */
